@@ -15,7 +15,7 @@ from verif.common import Ctx, Outcome, Witness
 MEMBERS = [
     ("REQ", ("REQ",)), ("OPT", ("OPT",)),
     ("CONST[ACTIVE]", ("CONST", "ACTIVE")), ("CONST[5]", ("CONST", 5)), ("CONST[true]", ("CONST", True)), ('CONST["a b"]', ("CONST", "a b")),
-    ("ENUM[A,B]", ("ENUM", ["A", "B"])), ("ENUM[ACTIVE,ACTIVATING,DONE]", ("ENUM", ["ACTIVE", "ACTIVATING", "DONE"])), ("ENUM[5,6]", ("ENUM", ["5", "6"])),
+    ("ENUM[A,B]", ("ENUM", ["A", "B"])), ("ENUM[ACTIVE,ACTIVATING,DONE]", ("ENUM", ["ACTIVE", "ACTIVATING", "DONE"])), ("ENUM[5,6]", ("ENUM", ["5", "6"])), ("ENUM[INF,WARN,ERR]", ("ENUM", ["INF", "WARN", "ERR"])), ("ENUM[nan,inf,x]", ("ENUM", ["nan", "inf", "x"])), ("CONST[NAN]", ("CONST", "NAN")), ("CONST[Infinity]", ("CONST", "Infinity")),
     ("TYPE[STRING]", ("TYPE", "STRING")), ("TYPE[NUMBER]", ("TYPE", "NUMBER")), ("TYPE[BOOLEAN]", ("TYPE", "BOOLEAN")), ("TYPE[LIST]", ("TYPE", "LIST")),
     ('REGEX["^[a-z]+$"]', ("REGEX", "^[a-z]+$")), ('REGEX["^[A-Z]{2,6}$"]', ("REGEX", "^[A-Z]{2,6}$")),
     ("RANGE[1,10]", ("RANGE", 1, 10)), ("RANGE[0.5,2.5]", ("RANGE", 0.5, 2.5)), ("RANGE[-5,5]", ("RANGE", -5, 5)),
@@ -28,7 +28,7 @@ def values():
     from octave_mcp.core.ast_nodes import LiteralZoneValue
 
     return [
-        None, "", "A", "B", "C", "ACT", "ACTIV", "ACTIVE", "ACTIVATING", "active", "x", "abc", "abcd", "ab", "AB", "a b", "5", "6", "50", "nan", "inf", "1e3", " 5 ", "2.5", "0x10",
+        None, "", "A", "B", "C", "INF", "IN", "NAN", "nan", "inf", "Infinity", "WARN", "ACT", "ACTIV", "ACTIVE", "ACTIVATING", "active", "x", "abc", "abcd", "ab", "AB", "a b", "5", "6", "50", "nan", "inf", "1e3", " 5 ", "2.5", "0x10",
         0, 1, 5, 10, 11, -5, -6, 2.5, 0.5, 0.49, 2.51, 1e3, float("nan"), float("inf"), True, False,
         [], ["a"], ["a", "b"], ["a", "b", "c"], ["a", "b", "c", "d"], {"k": 1},
         "2024-01-15", "2024-02-29", "2023-02-29", "2024-02-30", "2024-13-01", "2024-00-10", "0000-01-01", "2024-1-5", "20240115", "2024-01-15T10:00:00Z", "2024-01-15T10:00:00+02:00",
